@@ -29,12 +29,11 @@ key over the attached payload and protected header. -/
 theorem C03_issuer_valid_iff (f : Facts) :
     (handleResponse f).issuer = .valid ↔
       f.decrypts = true ∧ f.decodes = true ∧ f.hasDocuments = true ∧ f.hasMdlDoc = true ∧
-      f.x5chainPresent = true ∧ f.x5chainParses = true ∧ f.namespacesPresent = true ∧
-      f.coreNamespacePresent = true ∧ f.chainErrors = 0 ∧ IssuerSignatureOk f := by
+      f.x5chainPresent = true ∧ f.x5chainParses = true ∧ f.chainErrors = 0 ∧ IssuerSignatureOk f := by
   rw [← issuerAuthentication_iff]
   unfold handleResponse
   by_cases h1 : (f.decrypts && f.decodes) = true
-  · by_cases h2 : (f.hasDocuments && f.hasMdlDoc && f.x5chainPresent && f.x5chainParses && f.namespacesPresent && f.coreNamespacePresent) = true
+  · by_cases h2 : (f.hasDocuments && f.hasMdlDoc && f.x5chainPresent && f.x5chainParses) = true
     · simp only [h1, h2, Bool.not_true, Bool.false_eq_true, if_false]
       simp only [Bool.and_eq_true] at h1 h2
       by_cases hc : f.chainErrors = 0
@@ -45,8 +44,8 @@ theorem C03_issuer_valid_iff (f : Facts) :
       simp only [Bool.and_eq_true, not_and, Bool.not_eq_true] at h2
       constructor
       · intro h; cases h
-      · rintro ⟨_, _, a, b, c, d, e, g, _⟩
-        have := h2 (by simp [a, b, c, d, e]); simp_all
+      · rintro ⟨_, _, a, b, c, d, _⟩
+        have := h2 (by simp [a, b, c]); simp_all
   · simp only [h1, Bool.not_false, if_true]
     simp only [Bool.and_eq_true, not_and, Bool.not_eq_true] at h1
     constructor
@@ -58,7 +57,7 @@ theorem C03_nonvalid_has_error (f : Facts)
     (h : (handleResponse f).issuer ≠ .valid) : (handleResponse f).errors ≠ [] := by
   unfold handleResponse at *
   by_cases h1 : (f.decrypts && f.decodes) = true
-  · by_cases h2 : (f.hasDocuments && f.hasMdlDoc && f.x5chainPresent && f.x5chainParses && f.namespacesPresent && f.coreNamespacePresent) = true
+  · by_cases h2 : (f.hasDocuments && f.hasMdlDoc && f.x5chainPresent && f.x5chainParses) = true
     · simp only [h1, h2, Bool.not_true, Bool.false_eq_true, if_false] at *
       by_cases hc : (f.chainErrors == 0) = true
       · cases hi : issuerAuthentication f
@@ -78,7 +77,7 @@ theorem C03_not_valid_cases (f : Facts)
     (handleResponse f).issuer ≠ .valid := by
   intro hv
   have := (C03_issuer_valid_iff f).mp hv
-  obtain ⟨_, _, _, _, hx, hxp, _, _, hc, hk, _, hp, hs, ha, _, _, _⟩ := this
+  obtain ⟨_, _, _, _, hx, hxp, hc, hk, _, hp, hs, ha, _, _, _⟩ := this
   rcases h with h | h | h | h | h | h | h <;> simp_all
 
 /-- non-vacuity: an honest response is Valid/Valid without errors; one flipped fact is not. -/
